@@ -5,7 +5,7 @@
 From Coq Require Import List ZArith Bool Sorting.Permutation.
 From FV Require Import Base OutputM Sched.
 From FV Require Info.
-From FVP Require Import Adapters_proofs Sched_proofs Confluence_proofs OutputM_proofs Series_proofs.
+From FVP Require Import Adapters_proofs Sched_proofs Confluence_proofs OutputM_proofs Series_proofs Termination_proofs Order_proofs Trace_proofs.
 From FVP Require Info_proofs.
 Import ListNotations.
 Open Scope Z_scope.
@@ -99,12 +99,68 @@ Proof.
   intros oi st n cs cs' l F P H. destruct (Info_proofs.fanout_order_main oi st n cs cs' l F P H) as [_ H']. exact H'.
 Qed.
 
-(** Not yet proved: the value series itself for arbitrary component functions, and the same for links with
-    DelayToPull state (the correspondence and the monitor compare the full received series across orders). *)
-Definition C05_series_full : Prop :=
-  forall cs endt prio1 prio2 fuel o1 st1 acc1 o2 st2 acc2,
-    wf cs -> run_prio prio1 fuel cs endt = (o1, st1, acc1) -> run_prio prio2 fuel cs endt = (o2, st2, acc2) ->
-    o1 = o2 /\ (o1 = OOk -> forall c, s_time st1 c = s_time st2 c).
+(** The full series of requests.  The event trace of a run records, for every update, the pull of every input with
+    its time, and the time that reaches each source output / buffering adapter — recursively through pull-based
+    components ([EU], [EP], [ES], [EB]; the correspondence check compares this very trace with the calls recorded on
+    the real components, outputs and adapters).  For stateless links the events of one update are a function
+    [ublock cs c t] of the component and its new time alone, the trace of a run is the concatenation of the blocks of
+    its updates ([trace cs us], [us] = the sequence of (component, new time) in schedule order), and for any two
+    orders the sub-sequence of updates of each component is the same, namely [tfun cs c 1, ..., tfun cs c n]:
+    every consumer makes the same series of requests at the same times, and (C05_delivery_schedule_independent)
+    receives the same publication for each. *)
+Theorem C05_series_order_independent :
+  forall cs endt m prio1 prio2 fuel1 fuel2 st1 acc1 st2 acc2,
+    wf cs -> stateless cs -> min_start cs = Some m -> m < endt ->
+    (forall c, (c < length cs)%nat -> In c prio1) ->
+    (forall c, (c < length cs)%nat -> In c prio2) ->
+    run_prio prio1 fuel1 cs endt = (OOk, st1, acc1) ->
+    run_prio prio2 fuel2 cs endt = (OOk, st2, acc2) ->
+    exists us1 us2,
+      acc1 = trace cs us1 /\ acc2 = trace cs us2 /\
+      (forall u, In u us1 \/ In u us2 -> is_time cs (fst u) = true) /\
+      forall c, is_time cs c = true ->
+        ups_of c us1 = ups_of c us2 /\ ups_of c us1 = canon cs c (s_cnt st1 c).
+Proof.
+  intros cs endt m prio1 prio2 fuel1 fuel2 st1 acc1 st2 acc2 W SL Hm Hlt H1 H2 R1 R2.
+  eapply (series_order_independent cs W SL endt); [apply pick_prio_ok; exact H1|apply pick_prio_ok; exact H2| |exact R1|exact R2].
+  eapply init_running; eauto.
+Qed.
+
+(** a block does not depend on what happened before it *)
+Theorem C05_block_is_local :
+  forall cs c t acc, ublock cs c t acc = ublock cs c t [] ++ acc.
+Proof. exact ublock_app. Qed.
+
+(** The total form, for compositions with pass-through adapters, non-negative fixed delays and buffering adapters
+    ([term_ok]) whose cycles carry sufficient delays ([sufficient], C04): EVERY order in which the components are
+    considered ends normally as soon as the fuel exceeds the explicit bound [enough_fuel] (no order can run forever, no
+    order meets a data or circular-coupling error), every component is at or beyond the end time, and any two orders
+    end with the same update count and the same time for every component. *)
+Theorem C05_every_order_same_outcome :
+  forall cs rank phi rank' endt m prio1 prio2,
+    term_ok cs rank -> sufficient cs phi rank' -> min_start cs = Some m -> m < endt ->
+    (forall c, (c < length cs)%nat -> In c prio1) ->
+    (forall c, (c < length cs)%nat -> In c prio2) ->
+    forall fuel1 fuel2, (enough_fuel cs endt <= fuel1)%nat -> (enough_fuel cs endt <= fuel2)%nat ->
+      exists st1 acc1 st2 acc2,
+        run_prio prio1 fuel1 cs endt = (OOk, st1, acc1) /\
+        run_prio prio2 fuel2 cs endt = (OOk, st2, acc2) /\
+        forall c, is_time cs c = true ->
+          s_cnt st1 c = s_cnt st2 c /\ s_time st1 c = s_time st2 c /\ endt <= s_time st1 c.
+Proof. exact order_independent_total. Qed.
+
+(** ... and the error class: an undelayed cycle among components with a common start time before the end time makes
+    EVERY order end with the circular-coupling error. *)
+Theorem C05_every_order_reports_cycle :
+  forall cs rank cyc T endt prio,
+    term_ok cs rank -> und_cycle cs cyc -> (forall x, In x cyc -> s_time (init_state cs) x = T) -> T < endt ->
+    (forall c, (c < length cs)%nat -> In c prio) ->
+    forall fuel o st acc, (enough_fuel cs endt <= fuel)%nat -> run_prio prio fuel cs endt = (o, st, acc) -> o = OCirc.
+Proof. exact every_order_reports_cycle. Qed.
+
+(** Not proved: order independence of the outcome for cycles whose delays are positive but insufficient, and for links
+    with DelayToPull state (the correspondence and the monitor compare outcome, times and the full received series
+    across orders for those too). *)
 
 (** Non-vacuity: three components, all tied at the start; the two orders schedule differently (different event
     traces) and end in the same times and counts. *)
@@ -119,7 +175,9 @@ Example C05_nonvacuous :
    let '(o2, s2, a2) := run_prio [2; 1; 0]%nat 100 ex5 10 in
    o1 = OOk /\ o2 = OOk /\ rev a1 <> rev a2 /\
    final_times ex5 s1 = final_times ex5 s2 /\ final_counts ex5 s1 = final_counts ex5 s2 /\
-   final_times ex5 s1 = [12; 12; 12]).
+   final_times ex5 s1 = [12; 12; 12] /\
+   ublock ex5 0%nat 3 [] = [EB 0 1 3; EP 0 1 3; ES 1 0 2; EP 0 0 3; EU 0 3] /\
+   ups_of 0%nat [(1%nat, 2); (0%nat, 3); (2%nat, 2); (0%nat, 6)] = canon ex5 0%nat 2).
 Proof.
   split; [apply wf_b_sound; vm_compute; reflexivity|].
   split.
@@ -129,6 +187,46 @@ Proof.
   split; [reflexivity|]. vm_compute. repeat split; try reflexivity. intros E; inversion E.
 Qed.
 
+(** Non-vacuity of the total form: a delay-resolved ring of three (steps 10 / 1 / 3-2, delays 6+5, 3, 0). *)
+Definition ex5r : composition :=
+  [ mkC (KTime 0 [10] false) 1 [ mkIn (2, 0)%nat [AFixed 6; APass; AFixed 5] ];
+    mkC (KTime 0 [1] false) 1 [ mkIn (0, 0)%nat [AFixed 3] ];
+    mkC (KTime 0 [3; 2] false) 1 [ mkIn (1, 0)%nat [] ] ].
+Definition ex5r_phi (c : nat) : Z := match c with 0%nat => 0 | 1%nat => 2 | _ => -1 end.
+
+Example C05_total_nonvacuous :
+  term_ok ex5r (fun _ => O) /\ sufficient ex5r ex5r_phi (fun _ => O) /\ min_start ex5r = Some 0 /\
+  (enough_fuel ex5r 30 <= 700)%nat /\
+  (let '(o1, s1, a1) := run_prio [0; 1; 2]%nat 700 ex5r 30 in
+   let '(o2, s2, a2) := run_prio [2; 0; 1]%nat 700 ex5r 30 in
+   o1 = OOk /\ o2 = OOk /\ rev a1 <> rev a2 /\ final_times ex5r s1 = [30; 30; 30] /\ final_times ex5r s2 = [30; 30; 30]).
+Proof.
+  split.
+  { split.
+    - apply wf_b_sound; vm_compute; reflexivity.
+    - intros c k inp Hk. destruct c as [|[|[|c]]]; simpl in Hk;
+        repeat (destruct k as [|k]; simpl in Hk; [inversion Hk; reflexivity|]); try (destruct k; discriminate).
+      unfold getc in Hk. destruct c; simpl in Hk; destruct k; discriminate.
+    - intros c k inp Hk Tc. exfalso.
+      destruct c as [|[|[|c]]]; try (vm_compute in Tc; discriminate).
+      unfold getc in Hk. destruct c; simpl in Hk; destruct k; discriminate.
+    - intros c. simpl. Lia.lia. }
+  split.
+  { split.
+    - intros c k inp Hk. right.
+      destruct c as [|[|[|c]]]; simpl in Hk;
+        try (destruct k as [|k]; simpl in Hk; [inversion Hk; subst; clear Hk|destruct k; discriminate]).
+      + exists 11. split; [reflexivity|]. vm_compute. discriminate.
+      + exists 3. split; [reflexivity|]. vm_compute. discriminate.
+      + exists 0. split; [reflexivity|]. vm_compute. discriminate.
+      + unfold getc in Hk. destruct c; simpl in Hk; destruct k; discriminate.
+    - intros c k inp Hk Tc. exfalso.
+      destruct c as [|[|[|c]]]; try (vm_compute in Tc; discriminate).
+      unfold getc in Hk. destruct c; simpl in Hk; destruct k; discriminate. }
+  split; [reflexivity|]. split; [vm_compute; Lia.lia|].
+  vm_compute. repeat split; try reflexivity. intros E; inversion E.
+Qed.
+
 Print Assumptions C05_final_times.
 Print Assumptions C05_list_order_is_a_priority_order.
 Print Assumptions C05_outcome_class.
@@ -136,3 +234,7 @@ Print Assumptions C05_request_is_a_function_of_the_update_index.
 Print Assumptions C05_delivery_independent_of_later_publications.
 Print Assumptions C05_delivery_schedule_independent.
 Print Assumptions C05_metadata_order_independent.
+Print Assumptions C05_series_order_independent.
+Print Assumptions C05_block_is_local.
+Print Assumptions C05_every_order_same_outcome.
+Print Assumptions C05_every_order_reports_cycle.
